@@ -198,10 +198,20 @@ def body(ctx, case):
     extent = max([abs(c) for node in res for h in node for c in h] + [F(scale)])
     slack = max(F(1, 10 ** 9), F(64, 2 ** 52) * extent / fflat)
     limit = (fflat * (1 + slack)) ** 2
+    # "closer than the flatness" is strict.  Where the code's own arithmetic is exact - an ORIGINAL piece left
+    # unsplit, whose coordinates are small integers times a power of two, with a chord of rational length - a
+    # control point exactly AT the flatness distance is a tie the float comparison sees as such, and it must split.
+    orig_pieces = set()
+    if case.get("exact"):
+        orig_pieces = {(orig[k][1], orig[k][2], orig[k + 1][0], orig[k + 1][1]) for k in range(len(orig) - 1)}
     for j in range(len(res) - 1):
         a, b = res[j][1], res[j + 1][1]
+        piece_limit = limit
+        if (a, res[j][2], res[j + 1][0], b) in orig_pieces:
+            piece_limit = fflat ** 2
+            classes.add("exact_unsplit_original_piece")
         for inner in (res[j][2], res[j + 1][0]):
-            if not geom.sqdist_point_segment(inner, a, b) < limit:
+            if not geom.sqdist_point_segment(inner, a, b) < piece_limit:
                 ctx.record(case, classes, inserted > 0)
                 ctx.fail("%s: piece %d of the result is not flat: control point (%r, %r) is %.6g from its "
                          "chord (flatness %r)" % (what, j, float(inner[0]), float(inner[1]),
@@ -314,7 +324,40 @@ def cases(draw):
 
 
 @st.composite
+def tie_cases(draw):
+    """One piece on an axis-parallel or 3-4-5 chord with small integer coordinates (times a power of two), whose
+    inner control points sit at exactly the flatness distance from the chord, or one grid step inside / outside."""
+    unit = 2.0 ** draw(st.integers(-12, 12))
+    h = draw(st.integers(1, 12))
+    length = draw(st.integers(2, 16))
+    a = draw(st.integers(0, length))
+    b = draw(st.integers(0, length))
+    off1 = draw(st.sampled_from([0, 0, 0, -1, 1]))
+    off2 = draw(st.sampled_from([0, 0, -1, -h]))
+    side2 = draw(st.sampled_from([1, 1, -1]))
+    frame = draw(st.sampled_from(["x", "y", "345"]))
+
+    def place(along, across):
+        if frame == "x":
+            return [along * unit, across * unit]
+        if frame == "y":
+            return [-across * unit, along * unit]
+        # unit vectors (3,4)/5 and (-4,3)/5, everything scaled by 5 so that coordinates stay integers
+        return [(3 * along - 4 * across) * unit, (4 * along + 3 * across) * unit]
+    k = 5 if frame == "345" else 1
+    p0, p3 = place(0, 0), place(length, 0)
+    p1, p2 = place(a, h + off1), place(b, side2 * (h + off2))
+    tags = ["tie_piece"]
+    if off1 == 0 or off2 == 0:
+        tags.append("control_point_exactly_at_flatness")
+    return {"nodes": [[list(p0), list(p0), p1], [p2, list(p3), list(p3)]], "flat": h * k * unit,
+            "scale": max(length, h) * k * unit, "tags": tags, "exact": True, "tuples": draw(st.booleans())}
+
+
+@st.composite
 def typed_cases(draw):
+    if draw(st.integers(0, 14)) == 0:
+        return draw(tie_cases())
     if draw(st.integers(0, 59)) == 0:
         m = draw(st.sampled_from([90, 150, 260]))
         return {"nodes": wavy_stroke(m, amp=draw(st.sampled_from([3.0, 6.0, 9.0]))),
@@ -372,6 +415,11 @@ def fixed_cases():
     yield {"nodes": [[[0.0, 0.0], [0.0, 0.0], [30.0, 80.0]], [[70.0, 80.0], [100.0, 0.0], [70.0, 80.0]],
                      [[30.0, 80.0], [0.0, 0.0], [0.0, 0.0]]],
            "flat": 0.5, "scale": 100.0, "tags": ["retraced"], "shared": True}
+    # ties: both inner control points exactly 0.5 (resp. 2) from the chord - not *closer than* the flatness
+    yield {"nodes": [[[0.0, 0.0], [0.0, 0.0], [1.0, 0.5]], [[3.0, 0.5], [4.0, 0.0], [4.0, 0.0]]],
+           "flat": 0.5, "scale": 4.0, "tags": ["tie_piece", "control_point_exactly_at_flatness"], "exact": True}
+    yield {"nodes": [[[0.0, 0.0], [0.0, 0.0], [3.0, 2.0]], [[9.0, 2.0], [12.0, 0.0], [12.0, 0.0]]],
+           "flat": 2.0, "scale": 12.0, "tags": ["tie_piece", "control_point_exactly_at_flatness"], "exact": True}
     # one call that has to insert well over a thousand nodes (text outlines and long strokes at fine smoothness do)
     yield {"nodes": wavy_stroke(150), "flat": 0.05, "scale": 1500.0, "tags": ["long_stroke"]}
     corner = [[0.0, 10.0], [0.0, 10.0], [0.0, 10.0]]
@@ -381,7 +429,7 @@ def fixed_cases():
 
 
 def run(ctx):
-    ctx.exhaustive("fixed-shapes", fixed_cases(), body, "nine hand-picked shapes (loop, repeated node, polygon, flag revisiting a corner, out-and-back stroke with shared points, a 150-node stroke that needs > 1000 insertions, "
+    ctx.exhaustive("fixed-shapes", fixed_cases(), body, "eleven hand-picked shapes (two pieces whose control points sit exactly at the flatness distance, loop, repeated node, polygon, flag revisiting a corner, out-and-back stroke with shared points, a 150-node stroke that needs > 1000 insertions, "
                    "S-curve, cusp, single node)")
     ctx.given("generated", typed_cases(), body, quick=800, thorough=40000)
 
